@@ -306,8 +306,11 @@ def cli_items(K_in=1, K_out=2):
     return items
 
 
-def eval_cli(ki, ko, si, so, in_m, out_m, hs):
+def eval_cli(ki, ko, si, so, in_m, out_m, hs, rank_offset=0):
     from mc import world as W
+
+    in_m = tuple(m + rank_offset for m in in_m)
+    out_m = tuple(None if m is None else m + rank_offset for m in out_m)
 
     ins = [f"i{j}" for j in range(ki)]
     outs = [f"o{j}" for j in range(ko)]
@@ -410,20 +413,23 @@ def cli2_batch(acc, batch):
                           msg=f"T -> U with recorded hashes T:{hs_t} U:{hs_u}: {problems}")
 
 
-def cli_batch(acc, batch, ranks=3):
+FUTURE = 10**10  # rank offset: real files dated about 80 years after the harness' base date, i.e. well ahead of the machine's clock
+
+
+def cli_batch(acc, batch, ranks=3, future=False):
     R = list(range(1, ranks + 1))
     for ki, ko, si, so in batch:
         for in_m in itertools.product(R, repeat=ki):
             for out_m in itertools.product([None] + R, repeat=ko):
-                for hs in HASH_STATES:
+                for hs in (HASH_STATES if not future else (None, "same")):
                     exp = ref_single(ki, ko, in_m, out_m, hs)
-                    case = dict(kind="cli", ki=ki, ko=ko, si=si, so=so, in_m=in_m, out_m=out_m, hs=hs)
-                    obs = eval_cli(ki, ko, si, so, in_m, out_m, hs)
-                    acc.case(key=("cli", ki, ko, in_m, out_m, hs), outcome="cli" + str(obs), sample=case)
+                    case = dict(kind="cli", ki=ki, ko=ko, si=si, so=so, in_m=in_m, out_m=out_m, hs=hs, **(dict(future=True) if future else {}))
+                    obs = eval_cli(ki, ko, si, so, in_m, out_m, hs, rank_offset=FUTURE if future else 0)
+                    acc.case(key=("cli", ki, ko, in_m, out_m, hs, future), outcome="cli" + str(obs), sample=case)
                     acc.extra["cli_invocations"] += 6
                     if obs != exp:
                         acc.violation(
-                            sig=dict(kind="cli", ko=ko, so=so if ko == 0 else "*", exp=exp[0], obs=str(obs[0])[:40]),
+                            sig=dict(kind="cli", ko=ko, so=so if ko == 0 else "*", exp=exp[0], obs=str(obs[0])[:40], **(dict(future=True) if future else {})),
                             case=case,
                             expected=exp,
                             observed=obs,
@@ -446,11 +452,13 @@ def run(ctx):
     )
     ctx.pmap(me, "single_batch", single_items(K), ranks=3)
     plain = [it for it in single_items(K) if it[2] in ("list", "list0") and it[3] in ("list", "list0")]
-    for ep in ((-1.0, 1.0), (-3.0, 1.0)):  # ranks 1..3 -> 0, 1, 2 and -2, -1, 0 seconds since the epoch
+    # ranks 1..3 -> 0, 1, 2 and -2, -1, 0 seconds since the epoch; and dates far in the future (a file server whose clock runs ahead)
+    for ep in ((-1.0, 1.0), (-3.0, 1.0), (4_000_000_000.0, 1.0)):
         ctx.pmap(me, "single_batch", plain, ranks=3, epoch=ep)
     nm = [(2, 3)] if quick else [(2, 3), (3, 3), (2, 4)]
     for n, m in nm:
         ctx.pmap(me, "wf_batch", wf_items(n, m), ranks=3 if (n, m) != (2, 4) else 2, hash_modes=(None, "on") if (n, m) == (2, 3) else (None,))
+    ctx.pmap(me, "cli_batch", [it for it in cli_items(1, 2) if it[0] == 1 and it[2] in ("list", "str") and it[3] in ("list", "str", "list0")], ranks=3, future=True)
     ctx.pmap(me, "cli2_batch", [(a, b) for a in ("none", "same", "diff") for b in ("none", "same", "diff")], chunk=1)
     ctx.pmap(me, "cli_batch", cli_items(1, 2 if quick else 2), ranks=2 if quick else 3)
     ctx.bound = dict(single_K=K, ranks=3, workflows=nm, cli="k_in<=1,k_out<=2,ranks=%d" % (2 if quick else 3))
@@ -474,7 +482,7 @@ def replay(case):
         cli2_batch(acc, [(c["hs_t"], c["hs_u"])])
     elif kind == "cli":
         exp = ref_single(c["ki"], c["ko"], tuple(c["in_m"]), tuple(c["out_m"]), c["hs"])
-        obs = eval_cli(c["ki"], c["ko"], c["si"], c["so"], tuple(c["in_m"]), tuple(c["out_m"]), c["hs"])
+        obs = eval_cli(c["ki"], c["ko"], c["si"], c["so"], tuple(c["in_m"]), tuple(c["out_m"]), c["hs"], rank_offset=FUTURE if c.get("future") else 0)
         if obs != exp:
             acc.violation(dict(kind="cli"), case, exp, obs)
     return acc.violations
